@@ -21,6 +21,7 @@
 #define SOLREADER2_HPP
 
 #include <cstdio>
+#include <climits>
 
 #include "mp/sol-reader2.h"
 
@@ -499,6 +500,8 @@ Lget(char **sp, int *Lp)
     return 1;
   L = c - '0';
   while((c = *s) >= '0' && c <= '9') {
+    if (L > (INT_MAX - 9) / 10)
+      return 1;
     L = 10*L + c - '0';
     s++;
   }
